@@ -54,7 +54,9 @@ def run(ctx):
         wired[0] += 1
         return bytes.fromhex(out[0].split()[0]).decode("latin-1")
     knobs = {"wire": wire, "p_wire": 0.5, "steps": 20, "durs": [1000, 2000, 59000, 60000, 61000, 3600000, 86400000, 90061000, 604800000, 5443200000],
-             "dur_forms": [None, "iso", "iso", "dtend"], "chk": False, "limits": [None], "p_cancel": 0.1}
+             "dur_forms": [None, "iso", "iso", "dtend"], "chk": False, "limits": [None], "p_cancel": 0.1,
+             # start times: 2030-01-01, and the minutes before the leap day of 2028 and before its end (DTEND - DTSTART across them)
+             "t0s": [p_echsd.T0, p_echsd.T0, 1835395140, 1835481510]}
     cases, lines, impl, model = p_echsd.run_checks(ctx, "C14", knobs, 300, 4000, RULE)
     # ---- (b) executor
     exe = p_C13.build(ctx)
@@ -65,7 +67,13 @@ def run(ctx):
     plan = [("d1", ["DURATION:PT1S"], "sleep 8", ("killed", 1)), ("d2", ["DURATION:PT2S"], "sleep 8", ("killed", 2)),
             ("d3", ["DURATION:PT3S"], "sleep 8", ("killed", 3)), ("m1", ["DURATION:PT1M"], "sleep 1", ("ok", None)),
             ("n0", [], "sleep 1", ("ok", None)), ("du", ["DUE:%s" % due_future], "sleep 12", ("killed", 5)),
-            ("dp", ["DUE:%s" % due_past], "sleep 1", ("refused", None))]
+            ("dp", ["DUE:%s" % due_past], "sleep 1", ("refused", None)),
+            # the same with the due time given as local time of a zone
+            ("dz", ["DUE;TZID=Asia/Kolkata:%s" % (now + datetime.timedelta(seconds=5, hours=5, minutes=30)).strftime("%Y%m%dT%H%M%S")],
+             "sleep 12", ("killed", 5)),
+            ("dq", ["DUE;TZID=America/New_York:%s" % (now.astimezone(__import__("zoneinfo").ZoneInfo("America/New_York"))
+                                                      - datetime.timedelta(seconds=30)).strftime("%Y%m%dT%H%M%S")],
+             "sleep 1", ("refused", None))]
     if ctx.tier == "thorough":
         plan += [("t%d" % k, ["DURATION:PT%dS" % k], "sleep 12", ("killed", k)) for k in range(4, 9)]
     with concurrent.futures.ThreadPoolExecutor(max_workers=len(plan)) as ex:
